@@ -320,4 +320,11 @@ def R5_inside_and_crossing(run):
     C07.R6_swap_growth_handoff(RuleProxy(run, "R5"))
 
 
-RULES = [R1_global_accrual, R2_collect, R3_set_emissions, R4_wrap, R5_inside_and_crossing]
+def R6_cross_checks(run):
+    run.title("R6", 'rewards are credited on the liquidity held *before* the change, floor-multiplied, per index (C07.R5 instances, both packagings)')
+    from rules.common import RuleProxy
+    from rules import C07
+    C07.R5_credit(RuleProxy(run, 'R6'))
+
+
+RULES = [R1_global_accrual, R2_collect, R3_set_emissions, R4_wrap, R5_inside_and_crossing, R6_cross_checks]
